@@ -1123,7 +1123,8 @@ def corpus(r):
                 g.emit({"op": "evreduce", "fn": "sum", "a": lam, "axis": None})
         out.append((g.program, "ring"))
     # 10. Independent over a Delta, a Delta + weights + Gaussian joint, a Gaussian, and a term without the diagonal variable
-    for kind in ("delta", "joint", "gauss", "trivial"):
+    for kind in ("delta:none", "delta:plate", "delta:const", "delta:other", "joint", "gauss"):
+        kind, _, ldkind = kind.partition(":")
         g = Gen(r, family="log", max_event=0, real_vars=False)
         b = r.choice(NAMES[:3])
         size = g.sizes[b]
@@ -1133,14 +1134,13 @@ def corpus(r):
         term = None
         if kind in ("delta", "joint") and pt:
             other = r.choice([n for n in NAMES if n != b])
-            ld = r.choice(
-                [
-                    None,
-                    w,  # batched over the plate
-                    g.emit({"op": "tensor", "inputs": [], "shape": [], "dtype": "float", "data": g.data("real", 1)}),  # constant
-                    g.emit({"op": "tensor", "inputs": [[other, g.sizes[other]]], "shape": [g.sizes[other]], "dtype": "float", "data": g.data("real", g.sizes[other])}),
-                ]
-            )
+            lds = {
+                "none": None,
+                "plate": w,  # batched over the plate
+                "const": g.emit({"op": "tensor", "inputs": [], "shape": [], "dtype": "float", "data": g.data("real", 1)}),
+                "other": g.emit({"op": "tensor", "inputs": [[other, g.sizes[other]]], "shape": [g.sizes[other]], "dtype": "float", "data": g.data("real", g.sizes[other])}),
+            }
+            ld = lds[ldkind or r.choice(sorted(lds))]
             term = g.emit({"op": "delta", "name": diag, "point": pt, "ld": ld})
             if kind == "joint" and term and w:
                 gy = g.emit({"op": "gaussian", "batch": [[b, size]], "reals": [["y", []]], "mats": [round(r.gauss(0, 1), 3) for _ in range(size)], "locs": [round(r.gauss(0, 1), 3) for _ in range(size)]})
@@ -1149,17 +1149,37 @@ def corpus(r):
                     term = g.emit({"op": "binary", "fn": "add", "a": term, "b": gy})
         elif kind == "gauss":
             term = g.emit({"op": "gaussian", "batch": [[b, size]], "reals": [[diag, []]], "mats": [round(r.gauss(0, 1), 3) for _ in range(size)], "locs": [round(r.gauss(0, 1), 3) for _ in range(size)]})
-        elif kind == "trivial":
-            term = w
         if term:
             ind = g.emit({"op": "independent", "a": term, "reals_var": "x", "bint_var": b, "diag_var": diag})
             if ind and kind != "trivial":
                 val = g.emit({"op": "tensor", "inputs": [], "shape": [size], "dtype": "float", "data": g.data("real", size)})
                 if val:
                     g.emit({"op": "subs", "a": ind, "subs": [["x", ["val", val]]]})
+                if kind in ("delta", "joint") and pt:
+                    # on the support: x = the stacked points themselves
+                    on = g.emit({"op": "tensor", "inputs": [], "shape": [size], "dtype": "float", "data": list(g.program[[o["out"] for o in g.program].index(pt)]["data"])})
+                    if on:
+                        g.emit({"op": "subs", "a": ind, "subs": [["x", ["val", on]]]})
                 if kind in ("delta", "joint"):
                     g.emit({"op": "reduce_real", "fn": "logaddexp", "a": ind, "vars": ["x"]})
         out.append((g.program, "log"))
+    # 12. reductions over variables the operand does not mention, alone and together with one it does,
+    #     for every reduction op of the family (each interpretation has its own rule for the multiplicity)
+    for fam in ("ring", "log", "tropical"):
+        g = Gen(r, family=fam, max_event=0, real_vars=False)
+        t = T(g, ["i", "j"])
+        u = g.emit({"op": "unary", "fn": FAMILIES[fam]["unary"][-1], "a": t}) if t else None
+        for a in (t, u):
+            if not a:
+                continue
+            for fn in FAMILIES[fam]["reduce"]:
+                g.emit({"op": "reduce", "fn": fn, "a": a, "vars": [["k", g.sizes["k"]]]})
+                g.emit({"op": "reduce", "fn": fn, "a": a, "vars": [["i", g.sizes["i"]], ["l", g.sizes["l"]]]})
+        st = g.emit({"op": "stack", "name": "s9", "parts": [t, g.emit({"op": "num", "value": 1.5})]}) if t else None
+        if st:
+            for fn in FAMILIES[fam]["reduce"][:2]:
+                g.emit({"op": "reduce", "fn": fn, "a": st, "vars": [["s9", 2]]})
+        out.append((g.program, fam))
     # 11. successive substitutions of real values into a Gaussian over three real inputs, in every
     #     order of two inputs (lazily these fuse into one Subs whose pairs are not in input order)
     g = Gen(r, family="log", max_event=0, real_vars=False)
